@@ -219,6 +219,46 @@ theorem C03_gap_malformed (v : Nat) (tracing : Bool) (stream now : Int) (g : GRe
     right
     exact ⟨bs, rfl, fun tr s rest => C03_inexpressible_never_decodes v _ hx _ tr s rest⟩
 
+/-- **C03_outcome_judged.** Both clauses of the property as ONE judgement of what happens to a request
+    handed to a connection (`judge`: sent → must be expressible and decode to exactly what was asked;
+    inexpressible → must not be sent; the known gaps excluded by ¬ Rejectable): for every version 1..5,
+    tracing flag, in-range stream id and EVERY request of the eight kinds (any values, any positional /
+    named pattern over the values of any batch entry), the outcome of the model of the builders is judged
+    `ok`, `refusedOk` or `gap` — never `sentInexpressible`, `differs`, `undecodable` or
+    `refusedExpressible` (apart from frames over 256 MiB, which are refused). -/
+theorem C03_outcome_judged (eqv : Req → Req → Bool) (hrefl : ∀ r, eqv r r = true)
+    (v : Nat) (tracing : Bool) (stream now : Int) (g : GReq)
+    (hv1 : 1 ≤ v) (hv5 : v ≤ 5) (hs : StreamInRange v stream) :
+    judge eqv v tracing (ask now g) (outcomeOf (encodeReq v tracing stream now g)) = .ok ∨
+    judge eqv v tracing (ask now g) (outcomeOf (encodeReq v tracing stream now g)) = .refusedOk ∨
+    judge eqv v tracing (ask now g) (outcomeOf (encodeReq v tracing stream now g)) = .gap ∨
+    encodeReq v tracing stream now g = .error .frameTooBig := by
+  cases hx : Expressible v (ask now g) with
+  | true =>
+    rcases C03_expressible_built v tracing stream now g hv1 hv5 hx with ⟨bs, hb⟩ | hb
+    · left
+      have hr := C03_roundtrip v tracing stream now g bs [] hv1 hv5 hs hx hb
+      simp only [List.append_nil] at hr
+      simp [hb, outcomeOf, judge, hx, hr, hrefl]
+    · right; right; right; exact hb
+  | false =>
+    cases hr : Rejectable v (ask now g) with
+    | true =>
+      obtain ⟨e, he, _⟩ := (C03_rejected_iff v tracing stream now g).mpr hr
+      right; left
+      simp [he, outcomeOf, judge, hx, hr]
+    | false =>
+      right; right; left
+      cases he : encodeReq v tracing stream now g <;> simp [outcomeOf, judge, hx, hr]
+
+/-- the other direction, on the wire: whatever frame goes out for an inexpressible request of the refused
+    kinds (e.g. a BATCH from v3 with a name on ANY value of ANY entry — first, later, some, all) is a
+    violation, and so is silence about an expressible one -/
+theorem C03_sent_inexpressible_bad (eqv : Req → Req → Bool) (v : Nat) (tracing : Bool) (want : Req) (f : Bytes)
+    (hx : Expressible v want = false) (hr : Rejectable v want = true) :
+    judge eqv v tracing want (.sent f) = .sentInexpressible := by
+  simp [judge, hx, hr]
+
 /-! ## counterexamples: inexpressible requests the unchanged builders send anyway (DESIGN D14)
 
 Each is confirmed on the real code (the `enc` op of the differential run reproduces the bytes).
@@ -689,6 +729,15 @@ example : Rejectable 3 (ask 0 exRich) = true := by decide
 example : mapEquiv (Req.startup [([1], [2]), ([3], [4])]) (Req.startup [([3], [4]), ([1], [2])]) :=
   List.Perm.swap _ _ _
 
+
+
+/-! non-vacuity of the judgement: a v4 BATCH whose entry has a positional first value and a NAMED later one -/
+def exBatchLaterNamed : GReq :=
+  .batch 0 [⟨[7], [], [⟨[], false, some [1]⟩, ⟨[0x62], false, some [2]⟩]⟩] 1 0 false 0 []
+example : Expressible 4 (ask 0 exBatchLaterNamed) = false ∧ Rejectable 4 (ask 0 exBatchLaterNamed) = true := by decide
+example : judge (fun a b => a == b) 4 false (ask 0 exBatchLaterNamed) (outcomeOf (encodeReq 4 false 1 0 exBatchLaterNamed)) = .refusedOk := by
+  decide
+example : judge (fun a b => a == b) 4 true (ask 0 (.register [[0x41]])) (outcomeOf (encodeReq 4 true 5 0 (.register [[0x41]]))) = .ok := by decide
 
 /-! non-vacuity of the compression theorems: the toy algorithm of the harness (FrameWrite.toyEnc: marker byte,
     every byte xor 0x5A) satisfies the hypotheses -/
